@@ -28,7 +28,13 @@ CONSTANTS Freqs,       \* set of checkpoint_frequency values (0 = disabled)
           ConvAts,     \* set of: first iteration whose measure is below the threshold
           CallSeqs,    \* set of call sequences (limits) of the first process generation
           MaxGen,      \* number of process generations (crash/interrupt + restart)
-          AllowExplicit \* restarts may restore an explicit older step (into the same directory)
+          AllowExplicit, \* restarts may restore an explicit older step (into the same directory)
+          Bug           \* "none", or one seeded design fault (anti-vacuity: each must violate an invariant):
+                        \*   "late_snapshot"   the writer reads the solver's LIVE state when it writes
+                        \*   "early_commit"    the final name appears before the items are written
+                        \*   "gc_newest"       retention may delete the newest step
+                        \*   "label_per_call"  periodic saves are labelled with the per-call sweep counter
+                        \*   "no_final_save"   the save after the loop is omitted
 
 VARIABLES c,           \* configuration of this behaviour, fixed in Init
           gen, s, w, known, disk, cfgfile, due, committed, restoredFrom, outcome, ends
@@ -89,19 +95,20 @@ LoopExit ==
   /\ UNCHANGED <<c, ends, gen, w, known, disk, cfgfile, due, committed, restoredFrom, outcome>>
 
 Snapshot == [iter |-> s.iter, vtag |-> s.vtag, ptag |-> s.ptag]
+SaveLabel == IF Bug = "label_per_call" THEN s.calls[s.ci] - s.rem ELSE s.iter   \* sweeps done in this call
 
 (* save(step = iteration): Orbax_SavesSerialised (enabled only when the writer is idle),      *)
 (* Orbax_SkipSaveIfStepNotNewer, Orbax_SnapshotAtCall                                          *)
 SyncPc(to) == IF to = "top" THEN "sync_top" ELSE "sync_extract"
 SaveCall(from, to) ==
-  /\ s.pc = from /\ Freq > 0 /\ w.phase = "idle"
+  /\ s.pc = from /\ Freq > 0 /\ w.phase = "idle" /\ ~(from = "fsave" /\ Bug = "no_final_save")
   /\ due' = due \cup {s.iter}
   /\ ends' = IF from = "fsave" THEN ends \cup {s.iter} ELSE ends
   /\ IF \E k \in known : k >= s.iter
      THEN /\ UNCHANGED <<w, known>>                    \* Orbax_SkipSaveIfStepNotNewer
           /\ s' = [s EXCEPT !.pc = to]
-     ELSE /\ w' = [phase |-> "queued", step |-> s.iter, snap |-> Snapshot, del |-> {}]
-          /\ known' = known \cup {s.iter}
+     ELSE /\ w' = [phase |-> "queued", step |-> IF from = "psave" THEN SaveLabel ELSE s.iter, snap |-> Snapshot, del |-> {}]
+          /\ known' = known \cup {IF from = "psave" THEN SaveLabel ELSE s.iter}
           /\ s' = [s EXCEPT !.pc = IF Async THEN to ELSE SyncPc(to)]
   /\ UNCHANGED <<c, gen, disk, cfgfile, committed, restoredFrom, outcome>>
 
@@ -111,7 +118,7 @@ SyncDone(to) ==        \* synchronous mode: save() returns when the writer is do
   /\ UNCHANGED <<c, ends, gen, w, known, disk, cfgfile, due, committed, restoredFrom, outcome>>
 
 NoSave ==              \* checkpointing disabled: the final save is a no-op
-  /\ s.pc = "fsave" /\ Freq = 0
+  /\ s.pc = "fsave" /\ (Freq = 0 \/ Bug = "no_final_save")
   /\ s' = [s EXCEPT !.pc = "extract"]
   /\ UNCHANGED <<c, ends, gen, w, known, disk, cfgfile, due, committed, restoredFrom, outcome>>
 
@@ -124,13 +131,15 @@ Return ==              \* policy extracted from the current values; state return
 MkTmp ==
   /\ w.phase = "queued"
   /\ disk' = {e \in disk : ~(e.step = w.step /\ e.status = "tmp")}
-                \cup {[step |-> w.step, status |-> "tmp", snap |-> w.snap]}
+                \cup {[step |-> w.step, status |-> IF Bug = "early_commit" THEN "final" ELSE "tmp",
+                       snap |-> IF Bug = "early_commit" THEN [iter |-> -1, vtag |-> -1, ptag |-> -1] ELSE w.snap]}
   /\ w' = [w EXCEPT !.phase = "tmp"]
   /\ UNCHANGED <<c, ends, gen, s, known, cfgfile, due, committed, restoredFrom, outcome>>
 
 WriteItems ==
   /\ w.phase = "tmp"
-  /\ w' = [w EXCEPT !.phase = "written"]
+  /\ w' = [w EXCEPT !.phase = "written",
+                    !.snap = IF Bug = "late_snapshot" /\ s.pc # "dead" THEN Snapshot ELSE @]
   /\ UNCHANGED <<c, ends, gen, s, known, disk, cfgfile, due, committed, restoredFrom, outcome>>
 
 Commit ==              \* Orbax_CommitByRename
@@ -139,7 +148,9 @@ Commit ==              \* Orbax_CommitByRename
                 \cup {[step |-> w.step, status |-> "final", snap |-> w.snap]}
   /\ committed' = committed \cup {w.step}
   /\ w' = [w EXCEPT !.phase = "gc",
-                    !.del = (NamedFinal \cup {w.step}) \ Largest(MaxKeep, NamedFinal \cup {w.step})]
+                    !.del = IF Bug = "gc_newest"
+                            THEN {SetMax(NamedFinal \cup {w.step})}
+                            ELSE (NamedFinal \cup {w.step}) \ Largest(MaxKeep, NamedFinal \cup {w.step})]
   /\ UNCHANGED <<c, ends, gen, s, known, cfgfile, due, restoredFrom, outcome>>
 
 DeleteBegin ==         \* Orbax_GCKeepsNewest: directory removal is not atomic
